@@ -16,7 +16,7 @@ PYTHONPATH=$WT timeout 120 /venv/bin/python $D/demo.py >/dev/null 2>&1; CHANGED=
 MIROS_REPO=$WT /verif/tools/baseline.py > /tmp/cport_$S.tests 2>&1; TESTS=$?
 echo "$S: demo clean rc=$CLEAN, demo changed rc=$CHANGED, tests rc=$TESTS ($(tail -1 /tmp/cport_$S.tests))"
 if [ $CLEAN -eq 0 ] && [ $CHANGED -ne 0 ] && [ $TESTS -eq 0 ]; then
-  git diff > $D/patch.diff
+  git diff HEAD > $D/patch.diff
   /venv/bin/python - $D/meta.json <<'PY'
 import json, sys
 m = json.load(open(sys.argv[1]))
